@@ -552,7 +552,7 @@ class Reaction(Object):
         """
         try:
             check_solver_status(self._model.solver.status)
-            return self.forward_variable.dual - self.reverse_variable.dual
+            return (self.forward_variable.dual - self.reverse_variable.dual) / 2
         except AttributeError:
             raise RuntimeError(f"reaction '{self.id}' is not part of a model")
         # Due to below all-catch, which sucks, need to reraise these.
